@@ -111,7 +111,7 @@ def task_yaml(t, root):
     elif k == 'copy':
         L += ["- copy:", "    content: " + q(m[1]), "    dest: " + q("%s/out/%s" % (root, m[1]))]
     elif k == 'include':
-        L += ["- include: " + q("%s/%s" % (root, m[1]))]
+        L += ["- include: " + q(m[1] if t.get("relative") else "%s/%s" % (root, m[1]))]
     elif k == 'badparam':
         L += ["- debug:", "    nosuchparam: 1"]
     else:
